@@ -21,6 +21,7 @@ func main() {
 	norm := flag.Bool("norm", false, "print the normalised body without expansion")
 	stop := flag.String("stop", "", "comma-separated callee names kept as calls")
 	defers := flag.Bool("defers", false, "make deferred calls explicit before every return")
+	golits := flag.Bool("golits", false, "rewrite `go h(x)` into `go func(){ h(x) }()` and expand h there")
 	all := flag.Bool("all", false, "expand every function and build its graph (smoke test)")
 	check := flag.String("check", "", "print how the outcome of calls to this callee is tested (CheckOf)")
 	flag.Parse()
@@ -28,7 +29,7 @@ func main() {
 	for _, n := range strings.Split(*stop, ",") {
 		stops[n] = true
 	}
-	opt := ir.ExpandOpt{Key: "dump", Defers: *defers, Stop: func(fn *types.Func) bool { return stops[fn.Name()] }}
+	opt := ir.ExpandOpt{Key: "dump", Defers: *defers, GoLits: *golits, Stop: func(fn *types.Func) bool { return stops[fn.Name()] }}
 	p, err := ir.Load(*repo, nil)
 	if err != nil {
 		fmt.Fprintln(os.Stderr, err)
